@@ -39,7 +39,8 @@ CONSTANTS Mode,        \* "expr" | "lit" | "table"
           Brackets,    \* expr: subset of {"paren", "angle", "caret"}
           SymV,        \* value of the symbolic operand
           DotV,        \* value of '.'
-          MaxDigits    \* lit: maximal number of digits (one less for hexadecimal)
+          MaxDigits,   \* lit: maximal number of digits (one less for hexadecimal)
+          DqChars      \* lit: "few" | "all" -- the characters used in "cc literals
 
 LIM == 1073741824      \* 2^30; the modelled window is the open interval (-LIM, LIM)
 
@@ -311,7 +312,12 @@ Complete == Mode = "expr" /\ ~need /\ Len(frames) = 1 /\ toks # <<>>
 ShuntValue == FrameValue(frames[1])
 
 (* ------------------------------------------------------------------ mode "lit": literals written digit by digit *)
-CharAlphabet == {1, 2, 3, 17, 27, 28, 30, 33, 34, 59, 66, 91, 95}     \* Ascii indices: space ! " 0 : ; = @ A Z a z ~
+(* Ascii indices.  ' cannot be the character of a character literal and \ starts an escape (both are
+   spelling rules of the language, not arithmetic); " ends a "cc literal early. *)
+AllChars     == (1..95) \ {8, 61}
+FewChars     == {1, 2, 3, 17, 27, 28, 30, 33, 34, 59, 66, 91, 95}      \* space ! " 0 : ; = @ A Z a z ~
+SqAlphabet   == AllChars
+DqAlphabet   == (IF DqChars = "all" THEN AllChars ELSE FewChars) \ {3}
 R50Alphabet  == {2, 27, 28, 29, 30, 31, 40}                           \* R50 indices:   A Z $ . % 0 9
 LitStart == /\ Mode = "lit" /\ lit.style = "none"
             /\ \/ \E s \in NumStyles, n \in BOOLEAN, u \in BOOLEAN : lit' = [NoLit EXCEPT !.style = s, !.neg = n, !.upper = u]
@@ -321,8 +327,8 @@ LitStart == /\ Mode = "lit" /\ lit.style = "none"
 LitDigit == /\ Mode = "lit" /\ lit.style # "none"
             /\ \/ lit.style \in NumStyles /\ Len(lit.ds) < (IF StatedBase(lit.style) = 16 THEN MaxDigits - 1 ELSE MaxDigits)
                   /\ \E d \in StyleDigits(lit.style) : lit' = [lit EXCEPT !.ds = Append(@, d)]
-               \/ lit.style = "'" /\ Len(lit.ds) < 1 /\ \E c \in CharAlphabet : lit' = [lit EXCEPT !.ds = Append(@, c)]
-               \/ lit.style = "\"" /\ Len(lit.ds) < 2 /\ \E c \in CharAlphabet \ {3} : lit' = [lit EXCEPT !.ds = Append(@, c)]
+               \/ lit.style = "'" /\ Len(lit.ds) < 1 /\ \E c \in SqAlphabet : lit' = [lit EXCEPT !.ds = Append(@, c)]
+               \/ lit.style = "\"" /\ Len(lit.ds) < 2 /\ \E c \in DqAlphabet : lit' = [lit EXCEPT !.ds = Append(@, c)]
                \/ lit.style = "^R" /\ Len(lit.ds) < 3 /\ \E c \in R50Alphabet : lit' = [lit EXCEPT !.ds = Append(@, c)]
             /\ UNCHANGED <<toks, frames, need>>
 LitComplete == /\ Mode = "lit" /\ lit.style # "none"
